@@ -53,7 +53,11 @@ func (k *KeySigner) GetPrivateKey() (*ecdsa.PrivateKey, error) { return k.Key, n
 func (k *KeySigner) ZeroPrivateKey(*ecdsa.PrivateKey)      {}
 func (k *KeySigner) String() string                        { return "verif" }
 
-func Quiet() *slog.Logger { return slog.New(slog.NewTextHandler(io.Discard, nil)) }
+// Quiet: a logger that writes nowhere but is enabled at debug level, so that everything the code
+// does for the sake of a log line (argument evaluation, helper calls) is executed
+func Quiet() *slog.Logger {
+	return slog.New(slog.NewTextHandler(io.Discard, &slog.HandlerOptions{Level: slog.LevelDebug}))
+}
 
 func BigStr(b *big.Int) string {
 	if b == nil {
